@@ -157,6 +157,7 @@ let main_seq file do_abs =
   let verfs = ref [] in
   let alloc = ref (0, 0, true) in
   let prev_free = ref (0, 0) in
+  let kinodes = ref [] and kdirs = ref [] in
   let nsteps = ref 0 in
   (try
      while true do
@@ -181,6 +182,12 @@ let main_seq file do_abs =
          let b = if d = "z" then zeros (n_of_int 4096) else bytes_of_hex d in
          disk := disk_set !disk (n_of_string a) b
        | "A" :: fb :: fi :: q :: _ -> alloc := (int_of_string fb, int_of_string fi, q = "1")
+       | "K" :: i :: enc :: _ -> kinodes := (n_of_string i, bytes_of_hex enc) :: !kinodes
+       | "KD" :: i :: _ :: n :: rest ->
+         let rec ents k l acc = if k = 0 then acc else match l with
+             | nm :: inum :: off :: r -> ents (k - 1) r (((bytes_of_hex nm, n_of_string inum), n_of_string off) :: acc)
+             | _ -> acc in
+         kdirs := (n_of_string i, ents (int_of_string n) rest []) :: !kdirs
        | "X" :: _ -> Printf.printf "S %s %s PANIC\n" !callid !callname
        | "E" :: _ ->
          incr nsteps;
@@ -205,7 +212,8 @@ let main_seq file do_abs =
              let diag = match r, o with
                | RData (dd, _), OData (N0, od, _) ->
                  let rec pre a b k = match a, b with
-                   | _, [] -> Printf.sprintf " short-read got=%d want=%d prefix=1 free=%d" (List.length od) (List.length dd) pfb
+                   | _, [] -> Printf.sprintf " short-read got=%d want=%d prefix=1 free=%d nospace=%d" (List.length od) (List.length dd) pfb
+                                (if pfb < List.length dd / 4096 + 4 then 1 else 0)
                    | x :: a', y :: b' -> if x = y then pre a' b' (k+1) else Printf.sprintf " data-differs at=%d" k
                    | [], _ -> " long-read" in
                  if List.length od < List.length dd then pre dd od 0
@@ -222,10 +230,15 @@ let main_seq file do_abs =
              let total_data = int_of_n !sz - int_of_n l.l_dstart in
              let disk_fb = total_data - int_of_n ar.r_used_blocks in
              let disk_fi = int_of_n l.l_ninode - int_of_n ar.r_used_inodes in
-             let aok = (not quiescent) || (disk_fb = fb && disk_fi = fi) in
+             let cache_bad =
+               List.filter_map (fun (i, enc) -> if cached_inode_ok !sz !disk i enc then None else Some (Printf.sprintf "inode(%d)" (int_of_n i))) !kinodes @
+               List.filter_map (fun (i, ents) -> if name_cache_ok !sz !disk i ents then None else Some (Printf.sprintf "names(%d)" (int_of_n i))) !kdirs in
+             kinodes := []; kdirs := [];
+             let aok = ((not quiescent) || (disk_fb = fb && disk_fi = fi)) && cache_bad = [] in
              let s = (if mm = [] then "" else " abs=" ^ String.concat "," (List.map show_mm (take 6 mm))) ^
                      (if ar.r_errs = [] then "" else " wf=" ^ String.concat "," (List.map show_err (take 6 ar.r_errs))) ^
-                     (if aok then "" else Printf.sprintf " alloc=mem(%d,%d)/disk(%d,%d)" fb fi disk_fb disk_fi) in
+                     (if cache_bad <> [] then " alloc=cache:" ^ String.concat "," (take 4 cache_bad)
+                      else if aok then "" else Printf.sprintf " alloc=mem(%d,%d)/disk(%d,%d)" fb fi disk_fb disk_fi) in
              s, List.length mm, List.length ar.r_errs, aok
            end else "", 0, 0, true in
          Printf.printf "S %s %s REPLY=%d NABS=%d NWF=%d ALLOC=%d%s%s\n" !callid !callname
@@ -496,10 +509,187 @@ let main_crash file =
   let kd = Hashtbl.fold (fun k v acc -> Printf.sprintf "%d:%d" k v :: acc) kdist [] in
   Printf.printf "DONE images=%d ok=%d bad=%d ops=%d events=%d lost_suffix_hist=%s\n" !nimg !nok !nbad (List.length !ops) (Array.length !evarr) (String.concat "," kd)
 
+
+(* ---------- SimpleNFS (C17) and KVS (C18): replies and crash images ---------- *)
+let nlist_of_hex s = if s = "-" then [] else List.init (String.length s / 2) (fun i -> n_of_int (hexv s.[2*i] * 16 + hexv s.[2*i+1]))
+let nblock (b : byte0 list) = List.map Extracted.to_N b
+
+(* shared crash-image plumbing: events, incremental barrier image, pattern application *)
+let build_image base evarr img_b img_b_idx n pat =
+  let ev = evarr in
+  let last = ref !img_b_idx in
+  for i = !img_b_idx to n - 1 do (match ev.(i) with EvB -> last := i + 1 | _ -> ()) done;
+  for i = !img_b_idx to !last - 1 do (match ev.(i) with EvW (a, b) -> img_b := disk_set !img_b a b | EvB -> ()) done;
+  img_b_idx := !last;
+  ignore base;
+  let drop k = match pat.[0] with
+    | '-' -> false
+    | 's' -> k = int_of_string (String.sub pat 1 (String.length pat - 1))
+    | 'm' -> let m = Int64.of_string ("0x" ^ String.sub pat 1 (String.length pat - 1)) in
+      k < 63 && Int64.logand m (Int64.shift_left 1L k) <> 0L
+    | _ -> false in
+  let img = ref !img_b in
+  let k = ref 0 in
+  for i = !last to n - 1 do
+    (match ev.(i) with EvW (a, b) -> (if not (drop !k) then img := disk_set !img a b); incr k | EvB -> ())
+  done;
+  !img
+
+let window ops n =
+  (* ops: (s, e, durable) in issue order; returns (lo, hi) indices into the state array *)
+  let lo = ref 0 and hi = ref 0 in
+  List.iteri (fun idx (s, e, dur) -> if s < n then hi := idx + 1; if e <= n && dur then lo := idx + 1) ops;
+  (!lo, max !hi !lo)
+
+let main_simple file =
+  let ic = open_in file in
+  let ss = ref [] (* spec states, newest first *) and cur_s = ref Extracted.simple_empty_s and cur_i = ref Extracted.simple_empty_i in
+  let started = ref false in
+  let base = ref empty_disk and evs = ref [] and ops = ref [] in
+  let q = ref None in
+  let nq = ref 0 and nbadq = ref 0 and nimg = ref 0 and nbadimg = ref 0 and nmut = ref 0 in
+  let evarr = ref [||] and img_b = ref empty_disk and img_b_idx = ref 0 and states = ref [||] in
+  let fin = ref false in
+  (try while true do
+      let line = input_line ic in
+      match split_on ' ' line with
+      | "SI" :: _ ->
+        (* empty gmaps: obtained from a no-op step on a dummy is not possible; use extracted empties *)
+        cur_s := Extracted.simple_empty_s; cur_i := Extracted.simple_empty_i; ss := [!cur_s]; started := true
+      | "B0" :: a :: d :: _ -> let b = bytes_of_hex d in register_block b d; base := disk_set !base (n_of_string a) b
+      | "Q" :: id :: proc :: h :: off :: cnt :: sz :: data :: _ ->
+        let inum = simple_inum_of_handle (nlist_of_hex h) in
+        let c = match proc with
+          | "getattr" -> SGetattr inum
+          | "setattr" -> SSetattr (inum, if sz = "-" then None else Some (n_of_string sz))
+          | "read" -> SRead (inum, n_of_string off, n_of_string cnt)
+          | _ -> SWrite (inum, n_of_string off, n_of_string cnt, nlist_of_hex data) in
+        q := Some (id, proc, c)
+      | "P" :: code :: isdir :: size :: count :: eof :: data :: _ ->
+        (match !q with
+         | Some (id, proc, c) ->
+           incr nq;
+           let obs = if code <> "0" then SErr else
+               (match proc with
+                | "getattr" -> SAttr (isdir = "1", n_of_string size)
+                | "setattr" -> SOk
+                | "read" -> SData (nlist_of_hex data, eof = "1")
+                | _ -> SWritten (n_of_string count)) in
+           let (s', rs) = sstep !cur_s c in
+           let (i', ri) = istep !cur_i c in
+           cur_s := s'; cur_i := i';
+           (match c, obs with (SSetattr _ | SWrite _), (SOk | SWritten _) -> incr nmut | _ -> ());
+           let show = function SErr -> "err" | SAttr (d, z) -> Printf.sprintf "attr(%b,%d)" d (int_of_n z) | SOk -> "ok"
+                             | SData (d, e) -> Printf.sprintf "data[%d,%b]" (List.length d) e | SWritten n -> Printf.sprintf "written(%d)" (int_of_n n) in
+           if obs = rs && obs = ri then Printf.printf "Q %s %s OK\n" id proc
+           else (incr nbadq; Printf.printf "Q %s %s BAD observed=%s spec=%s transliteration=%s\n" id proc (show obs) (show rs) (show ri))
+         | None -> ())
+      | "X" :: _ -> incr nbadq; Printf.printf "Q ? ? BAD panic\n"
+      | "T" :: _ :: s :: e :: _ -> ops := (int_of_string s, int_of_string e, true) :: !ops; ss := !cur_s :: !ss
+      | "V" :: "b" :: _ -> evs := EvB :: !evs
+      | "V" :: "w" :: a :: d :: _ -> let b = bytes_of_hex d in register_block b d; evs := EvW (n_of_string a, b) :: !evs
+      | "G" :: n :: pat :: status :: dg :: _ ->
+        if not !fin then begin
+          fin := true; evarr := Array.of_list (List.rev !evs); img_b := !base; img_b_idx := 0;
+          states := Array.of_list (List.rev !ss) end;
+        incr nimg;
+        let n = int_of_string n in
+        let img = build_image !base !evarr img_b img_b_idx n pat in
+        let bad = ref [] in
+        if status <> "ok" then bad := "real-recovery-panicked" :: !bad;
+        (match recover_log img with
+         | None -> bad := "model-recover-refuses-header" :: !bad
+         | Some logical ->
+           if status = "ok" && logical_digest logical <> dg then bad := "recovered-disk-differs-from-model-recovery" :: !bad;
+           let rdn a = nblock (rd logical a) in
+           let (lo, hi) = window (List.rev !ops) n in
+           let files = List.init 30 (fun k -> let i = n_of_int (k + 2) in (i, simple_abs rdn i)) in
+           let matches st = List.for_all (fun (i, f) -> s_file st i = f) files in
+           let found = ref false in
+           for k = lo to hi do if matches !states.(k) then found := true done;
+           if not !found then begin
+             let any = ref (-1) in
+             Array.iteri (fun k st -> if !any < 0 && matches st then any := k) !states;
+             bad := Printf.sprintf "no-prefix-in-window[%d,%d] matches-prefix=%d" lo hi !any :: !bad end);
+        if !bad = [] then Printf.printf "G %d %s OK\n" n pat
+        else (incr nbadimg; Printf.printf "G %d %s BAD %s\n" n pat (String.concat " " !bad))
+      | _ -> ()
+    done with End_of_file -> ());
+  ignore started;
+  Printf.printf "DONE calls=%d badcalls=%d mutating=%d images=%d badimages=%d\n" !nq !nbadq !nmut !nimg !nbadimg
+
+let main_kvs file =
+  let ic = open_in file in
+  let sz = ref N0 in
+  let cur = ref Extracted.kvs_empty in
+  let ss = ref [] in
+  let base = ref empty_disk and evs = ref [] and ops = ref [] in
+  let pending = ref None in
+  let nq = ref 0 and nbadq = ref 0 and nimg = ref 0 and nbadimg = ref 0 and nput = ref 0 in
+  let evarr = ref [||] and img_b = ref empty_disk and img_b_idx = ref 0 and states = ref [||] in
+  let fin = ref false in
+  (try while true do
+      let line = input_line ic in
+      match split_on ' ' line with
+      | "KI" :: s :: _ -> sz := n_of_string s; ss := [!cur]
+      | "B0" :: a :: d :: _ -> let b = bytes_of_hex d in register_block b d; base := disk_set !base (n_of_string a) b
+      | "KG" :: id :: k :: _ -> pending := Some (`Get (id, n_of_string k))
+      | "KP" :: id :: n :: rest ->
+        let rec prs k l acc = if k = 0 then List.rev acc else match l with
+            | key :: v :: r -> prs (k - 1) r ((n_of_string key, bytes_of_hex v) :: acc) | _ -> List.rev acc in
+        pending := Some (`Put (id, prs (int_of_string n) rest []))
+      | "KR" :: res :: _ ->
+        incr nq;
+        (match !pending with
+         | Some (`Get (id, k)) ->
+           let valid = k_valid !sz k in
+           let okk = if not valid then res = "panic"
+             else (match split_on ' ' line with _ :: "1" :: vh :: _ -> bytes_of_hex vh = kget !cur k | _ -> false) in
+           if okk then Printf.printf "K %s get OK\n" id else (incr nbadq; Printf.printf "K %s get BAD key=%d valid=%b result=%s\n" id (int_of_n k) valid res)
+         | Some (`Put (id, pairs)) ->
+           let valid = kput_ok !sz pairs in
+           let okk = if not valid then res = "panic" else res = "1" in
+           if valid && res = "1" then (cur := kput !cur pairs; incr nput);
+           if okk then Printf.printf "K %s put OK\n" id else (incr nbadq; Printf.printf "K %s put BAD valid=%b result=%s\n" id valid res)
+         | None -> ());
+        pending := None
+      | "T" :: _ :: s :: e :: _ -> ops := (int_of_string s, int_of_string e, true) :: !ops; ss := !cur :: !ss
+      | "V" :: "b" :: _ -> evs := EvB :: !evs
+      | "V" :: "w" :: a :: d :: _ -> let b = bytes_of_hex d in register_block b d; evs := EvW (n_of_string a, b) :: !evs
+      | "G" :: n :: pat :: status :: dg :: _ ->
+        if not !fin then begin
+          fin := true; evarr := Array.of_list (List.rev !evs); img_b := !base; img_b_idx := 0;
+          states := Array.of_list (List.rev !ss) end;
+        incr nimg;
+        let n = int_of_string n in
+        let img = build_image !base !evarr img_b img_b_idx n pat in
+        let bad = ref [] in
+        if status <> "ok" then bad := "real-recovery-panicked" :: !bad;
+        (match recover_log img with
+         | None -> bad := "model-recover-refuses-header" :: !bad
+         | Some logical ->
+           if status = "ok" && logical_digest logical <> dg then bad := "recovered-disk-differs-from-model-recovery" :: !bad;
+           let (lo, hi) = window (List.rev !ops) n in
+           let keys = List.init (int_of_n !sz - 513) (fun k -> n_of_int (513 + k)) in
+           let matches st = List.for_all (fun k -> kget st k = rd logical k) keys in
+           let found = ref false in
+           for k = lo to hi do if matches !states.(k) then found := true done;
+           if not !found then begin
+             let any = ref (-1) in
+             Array.iteri (fun k st -> if !any < 0 && matches st then any := k) !states;
+             bad := Printf.sprintf "no-prefix-in-window[%d,%d] matches-prefix=%d" lo hi !any :: !bad end);
+        if !bad = [] then Printf.printf "G %d %s OK\n" n pat
+        else (incr nbadimg; Printf.printf "G %d %s BAD %s\n" n pat (String.concat " " !bad))
+      | _ -> ()
+    done with End_of_file -> ());
+  Printf.printf "DONE calls=%d badcalls=%d puts=%d images=%d badimages=%d\n" !nq !nbadq !nput !nimg !nbadimg
+
 let () =
   match Array.to_list Sys.argv with
   | _ :: "c15" :: file :: rest -> main_c15 file (rest = ["full"])
   | _ :: "crash" :: file :: _ -> main_crash file
+  | _ :: "simple" :: file :: _ -> main_simple file
+  | _ :: "kvs" :: file :: _ -> main_kvs file
   | _ :: "seq" :: file :: rest -> main_seq file (rest <> ["noabs"])
   | _ :: file :: rest -> main_seq file (rest <> ["noabs"])
   | _ -> prerr_endline "usage: drv <mode> <file>"; exit 2
